@@ -134,7 +134,10 @@ def run(prop, tier, extra=None):
         focus = c['focus']
         if prop == 'C06':
             focus = rnd.choice(['arith', 'eval', 'mask'])
-        progs.append(cd.gen_program(rnd, rnd.choice(c['depths']), focus=focus))
+        # C06: also the template with non-finite data (inf - inf, nan ...)
+        tpl = cd.TEMPLATES + ['T6', 'T6'] if prop == 'C06' else None
+        progs.append(cd.gen_program(rnd, rnd.choice(c['depths']), focus=focus,
+                                    templates=tpl))
     if prop == 'C04':
         progs += hetero_stacks(rnd, tier)
     if prop == 'C03':
